@@ -339,6 +339,58 @@ func RunEnumWorker(p Params) *Summary {
 			}
 		}
 	}
+	// (h) value flow: an operation that puts a value somewhere (null, scalars, empty and nested
+	// containers) followed by one that reads, copies, moves, tests, extends or removes it - under
+	// every configuration of the copy-size limit and of negative indices (options in v5, the two
+	// package variables in the legacy package, which the scenario sets before its calls)
+	{
+		vals := []string{`null`, `1`, `"s"`, `{}`, `[]`, `{"k":null}`, `[null]`, `{"k":[1,{"z":null}]}`}
+		var firsts, seconds []string
+		for _, v := range vals {
+			firsts = append(firsts, `{"op":"add","path":"/x","value":`+v+`}`, `{"op":"replace","path":"/a","value":`+v+`}`, `{"op":"add","path":"/c/0","value":`+v+`}`)
+		}
+		for _, src := range []string{"/x", "/a", "/c/0"} {
+			seconds = append(seconds,
+				`{"op":"copy","from":"`+src+`","path":"/y"}`, `{"op":"move","from":"`+src+`","path":"/y"}`, `{"op":"copy","from":"`+src+`","path":"/c/-"}`,
+				`{"op":"test","path":"`+src+`","value":null}`, `{"op":"test","path":"`+src+`","value":{"k":null}}`, `{"op":"remove","path":"`+src+`"}`,
+				`{"op":"replace","path":"`+src+`","value":[1]}`, `{"op":"add","path":"`+src+`/k","value":1}`, `{"op":"copy","from":"/c","path":"`+src+`/k"}`, `{"op":"copy","from":"`+src+`","path":"`+src+`/k"}`)
+		}
+		doc := `{"a":{"b":1},"c":[1,2]}`
+		cfgN := 0
+		for _, target := range targets {
+			for _, limit := range []int64{0, 1, 40} {
+				for _, negOff := range []bool{false, true} {
+					cfgN++
+					var batch []string
+					flush := func() {
+						if len(batch) > 0 && mine() {
+							sc := patchListScenario(seed, target, doc, batch, item)
+							if target == "legacy" {
+								sc.Cfg.PkgLimit, sc.Cfg.PkgNegOff = limit, negOff
+							} else {
+								for i := range sc.Tasks[0] {
+									if c := &sc.Tasks[0][i]; c.Fn == FnApplyWithOptions {
+										c.Opts = Opts{Limit: limit, Neg: !negOff, Escape: (cfgN+i)%2 == 0, Allow: i%4 == 1}
+									}
+								}
+							}
+							exec(sc, "value-flow-pair")
+						}
+						batch = nil
+					}
+					for _, a := range firsts {
+						for _, b := range seconds {
+							batch = append(batch, "["+a+","+b+"]")
+							if len(batch) == 16 {
+								flush()
+							}
+						}
+					}
+					flush()
+				}
+			}
+		}
+	}
 	// (g) extreme and oddly spelled array indices (never with EnsurePathExistsOnAdd, whose padding is
 	// outside the stated domain above 10^4), and strings that end in runs of malformed UTF-8
 	{
